@@ -354,3 +354,31 @@ def c10(ctx):
     g1 = gen(ctx, "DebDocsGen.tla", "DebDocsGen.cfg", ctx.path("docs.ndjson"), what="document models per kind")
     judge(ctx, "C10", g1, what="typed parsers vs document model")
     ctx.exhaustive = True
+
+
+# =========================================================================== totality, determinism, concurrency (C18)
+@prop("C18", "C18Trace",
+      "Ten parser entry points (version, architecture, dependency, paragraphs, .dsc, .changes, debian/control, Packages, "
+      "Sources, changelog) x seeded inputs (grammar-derived seeds, byte-level mutations, raw bytes, documents grown to 64 KiB) "
+      "called twice under a watchdog; then 16 goroutines x N calls on independent inputs in a race-detector build, the "
+      "begin/end events ordered by a global atomic ticket and stepped by TLC through the ParserCalls machine.")
+def c18(ctx):
+    mc(ctx, "ParserCallsMC.tla", "ParserCallsMC.cfg", what="no shared variable: every interleaving ends calls with their baseline outcome")
+    vec = hgen(ctx, "C18", ctx.path("vec.ndjson"))
+    seq, conc = ctx.path("seq.ndjson"), ctx.path("conc.ndjson")
+    with open(vec) as f, open(seq, "w") as a, open(conc, "w") as b:
+        for line in f:
+            (b if '"k":"conc"' in line else a).write(line)
+    judge(ctx, "C18", seq, what="totality, value xor error, determinism")
+    # concurrent part: race-enabled build, stateful validation
+    trace = ctx.path("conc-trace.ndjson")
+    out, raced = vf.harness_race(ctx, ["exec", "C18", conc, trace])
+    verdicts = validate(ctx, "C18Trace.tla", "C18Trace.cfg", trace, workers=2, what="goroutine events vs ParserCalls machine",
+                        stateful_ev=("begin", "end"))
+    absorb(ctx, trace, verdicts, replay_vector=lambda rec, get: json.loads(open(conc).readline()))
+    ctx.extra["race_detector"] = "data race reported" if raced else "no data race reported"
+    if raced:
+        ctx.violations.append({"ev": "race", "class": "concurrent", "why": "the Go race detector reported a data race",
+                               "vector": json.loads(open(conc).readline()), "rec": {"output": out[-3000:]}, "trace": "conc", "line": 0})
+    ctx.assumptions += ["data-race freedom is observed with the Go race detector (outside TLA+); TLC judges outcomes and the nesting of events",
+                        "above 256 bytes only totality, value-xor-error and determinism are judged (no functional oracle)"]
